@@ -668,7 +668,8 @@ class Interp(ExprMixin):
 
         op = match_with(s, frame.func, self.sync, resolve)
         if op is not None:
-            self.dynamic_ops[(frame.func.qual, s.lineno)] = op
+            # (a generic helper - `cond, locked = table[kind]` - is one site per condition it is reached with)
+            self.dynamic_ops[(frame.func.qual, s.lineno) + ((tuple(sorted(op.cond_set)),) if op.dynamic and op.cond_set else ())] = op
             return self.lock_with(op, s, st, frame, out)
         if len(s.items) == 1 and isinstance(s.items[0].context_expr, ast.Call):
             cm = self.resolve_ctxmgr(s.items[0].context_expr, st, frame)
